@@ -202,6 +202,18 @@ def items_program():
     return Contract(methods=tuple(cm), interfaces=(i0,), mid_items=mids, entry_points="")
 
 
+def msgattr_program():
+    """Message types that are given a serde container attribute through `sv::msg_attr`: names and fields stay as declared."""
+    a = (Arg("a", "u32"), Arg("b1", "String"))
+    cm = [Method("instantiate", "inst", a), Method("migrate", "mig", a), Method("exec", "set_admin", a), Method("exec", "pause_all", ()), Method("query", "get_x", (Arg("a", "u32"),)),
+          Method("sudo", "end_block", (Arg("a", "u32"),))]
+    im = [Method("exec", "ie_one", a), Method("query", "iq_one", (Arg("a", "u32"),)), Method("sudo", "is_one", ())]
+    i0 = Interface(name="If0", module="if0", methods=tuple(im), custom="msg=Empty, query=Empty",
+                   attrs=tuple("#[sv::msg_attr(%s, serde(deny_unknown_fields))]" % k for k in ("exec", "query", "sudo")))
+    return Contract(methods=tuple(cm), interfaces=(i0,), entry_points="",
+                    msg_attrs=tuple("%s, serde(deny_unknown_fields)" % k for k in ("exec", "query", "sudo", "instantiate", "migrate")))
+
+
 def prefix_program():
     """Message names of one part that are proper prefixes of names of another part of the same kind,
     the longer-named part listed first (routing must compare whole names)."""
@@ -254,6 +266,7 @@ def programs(tier):
     out.append(("pctxmix0", ctxmix_program(), {"samename", "kinds", "ctxmix"}))
     out.append(("pinstnames0", instnames_program(), {"types", "argnames"}))
     out.append(("pitems0", items_program(), {"kinds", "items"}))
+    out.append(("pmsgattr0", msgattr_program(), {"kinds", "msg_attr"}))
     out.extend(binder_programs())
     for n in (0, 1, 2):
         out.append(("pparts%d" % n, parts_program(n), {"parts"}))
